@@ -71,20 +71,31 @@ def bump (types : List (String × Nat × Nat × Bytes)) (n : String) (h : Nat) (
   if types.any (·.1 == n) then types.map (fun e => if e.1 == n then (e.1, e.2.1 + 1, e.2.2) else e)
   else types ++ [(n, 1, h, id)]
 
+/-- block subsidy assumed by the fee figure: 50 coins halved every 210000 heights -/
+def reward (height : Nat) : Nat := (5000000000 : Nat) >>> (height / 210000)
+
+/-- sum of the output values of a transaction -/
+def txVolume (t : RTx) : Nat := t.outs.foldl (fun a o => a + o.value) 0
+
+/-- fee figure of one transaction: for a coinbase, first-output value above the subsidy, floored at zero; else nothing -/
+def txFee (height : Nat) (t : RTx) : Nat :=
+  if isCoinbase t then (match t.outs with | o :: _ => o.value - reward height | [] => 0) else 0
+
+/-- the per-transaction part of `on_block` -/
+def statsTx (ver : UInt8) (height : Nat) (s : Stats) (t : RTx) : Stats :=
+  let id := txid t
+  let tv := txVolume t
+  let types := t.outs.foldl (fun ty o => bump ty (S.eval ver o.script).pattern.name height id) s.types
+  let sz := t.toBytes.length
+  { s with fees := s.fees + txFee height t, ins := s.ins + t.icnt.value, outs := s.outs + t.ocnt.value,
+           bigVal := if tv > s.bigVal.1 then (tv, height, id) else s.bigVal,
+           volume := s.volume + tv,
+           bigSize := if sz > s.bigSize.1 then (sz, height, id) else s.bigSize,
+           types := types }
+
 def statsBlock (ver : UInt8) (s : Stats) (b : EBlock) : Stats :=
   let s := { s with blocks := s.blocks + 1, txs := s.txs + b.blk.txCount.value, sizes := s.sizes ++ [b.size] }
-  let s : Stats := b.blk.txs.foldl (fun (s : Stats) t =>
-    let id := txid t
-    let reward := (5000000000 : Nat) >>> (b.height / 210000)
-    let fee := if isCoinbase t then (match t.outs with | o :: _ => o.value - reward | [] => 0) else 0
-    let tv := t.outs.foldl (fun a o => a + o.value) 0
-    let types := t.outs.foldl (fun ty o => bump ty (S.eval ver o.script).pattern.name b.height id) s.types
-    let sz := t.toBytes.length
-    { s with fees := s.fees + fee, ins := s.ins + t.icnt.value, outs := s.outs + t.ocnt.value,
-             bigVal := if tv > s.bigVal.1 then (tv, b.height, id) else s.bigVal,
-             volume := s.volume + tv,
-             bigSize := if sz > s.bigSize.1 then (sz, b.height, id) else s.bigSize,
-             types := types }) s
+  let s : Stats := b.blk.txs.foldl (statsTx ver b.height) s
   let gaps := if s.lastTs > 0 then s.gaps ++ [b.blk.header.time - s.lastTs] else s.gaps
   { s with gaps := gaps, lastTs := b.blk.header.time }
 
